@@ -1,13 +1,344 @@
 /-
   C11 — diff() marks exactly the one-sided children and projects back to both inputs.
-  Property theorems only; helper lemmas live in Nutree/Lemmas.
+  Property theorems only; helper lemmas live in Nutree/Lemmas/Diff*.lean.
+
+  Vocabulary (all in `Nutree.Diff`, see the `Lemmas/Diff*` files):
+  * `rawDiff ordered t0 t1`  the forest built by `compare` before the re-classification loop;
+  * `ValidOrder ordered t0 t1 o`  the iteration order `o` of the set `added_nodes` mentions only
+    members of that set (`none` = creation order is always valid).  The loop of the implementation
+    iterates over the *set* `added_nodes`, i.e. over a permutation of `addedIds (rawDiff …)`; for a
+    list that contains identities of other nodes the statements T2–T6 are FALSE (the model is
+    total in `order?`; counterexample in the doc comment of `proj_first`).
+  * `SibU`, `IdFaithful`  hypotheses on the inputs;  `plainShape`, `dropMarked`, `PEquiv`,
+    `FirstProj`  projections of a result;  `Matched` / `Spec` / `Local`  the matched-pairs traversal
+    and the level-wise specification.
+
+  T8 (`inputs_unchanged`) is not a theorem: the inputs of `diffTree` are values, the function
+  returns a new forest (whose node identities are fresh, `1, 2, …` in pre-order, see
+  `Diff.cmpNode_ids`), so there is nothing that could be mutated.
 -/
-import Nutree.Model.Diff
+import Nutree.Lemmas.DiffReduce
+import Nutree.Lemmas.DiffMoved
+import Nutree.Lemmas.DiffIdent
+import Nutree.Lemmas.DiffSecond
 namespace Nutree.C11
-open Nutree T Nutree.Diff
+open Nutree T C10 Nutree.Diff
 
 /-- comparing two empty trees yields an empty result, for every setting. -/
 theorem diff_empty (ordered reduce : Bool) : diffTree ordered reduce [] [] none = [] := by
-  cases ordered <;> cases reduce <;> simp [diffTree, cmpNode, cmpL, addL, reclassify, addedIds, reduceL, T.flatL]
+  cases ordered <;> cases reduce <;> simp [diffTree, cmpNode, cmpL, addL, reclassify, addedIds, reduceL]
+
+/-! ## T7 — `reduce=True` -/
+
+/-- T7: `reduceL` keeps exactly the nodes that carry a `dc` mark or have a descendant that does,
+in order, with unchanged records (payload and marks): the pre-order list of records of the
+reduced forest is the pre-order list of records of the forest filtered by `hasMarkedDesc`. -/
+theorem reduce_spec (f : List T) :
+    (flatL (reduceL f)).map T.info = ((flatL f).filter hasMarkedDesc).map T.info :=
+  infosL_reduceL f
+
+/-- T7: the reduced diff is the reduction of the un-reduced diff. -/
+theorem reduce_diffTree (ordered : Bool) (t0 t1 : List T) (o : Option (List NodeId)) :
+    diffTree ordered true t0 t1 o = reduceL (diffTree ordered false t0 t1 o) := rfl
+
+/-! ## T6 — re-classification -/
+
+/-- T6: in the result every node marked MOVED_HERE has a node marked MOVED_TO with the same
+data_id, and vice versa. -/
+theorem moved_pairs (ordered : Bool) (t0 t1 : List T) (o : Option (List NodeId))
+    (hv : ValidOrder ordered t0 t1 o) :
+    (∀ x ∈ flatL (diffTree ordered false t0 t1 o), dcOf x = some "MOVED_HERE" →
+      ∃ y ∈ flatL (diffTree ordered false t0 t1 o), dcOf y = some "MOVED_TO" ∧ y.did = x.did) ∧
+    (∀ x ∈ flatL (diffTree ordered false t0 t1 o), dcOf x = some "MOVED_TO" →
+      ∃ y ∈ flatL (diffTree ordered false t0 t1 o), dcOf y = some "MOVED_HERE" ∧ y.did = x.did) := by
+  obtain ⟨h1, h2⟩ := diffTree_pairs hv
+  constructor
+  · intro x hx hd
+    obtain ⟨y, hy, hyd, hydid⟩ := h1 x.info (infosL_mem_of_mem_flatL hx) hd
+    obtain ⟨n, hn, rfl⟩ := mem_infosL.1 hy
+    exact ⟨n, hn, hyd, hydid⟩
+  · intro x hx hd
+    obtain ⟨y, hy, hyd, hydid⟩ := h2 x.info (infosL_mem_of_mem_flatL hx) hd
+    obtain ⟨n, hn, rfl⟩ := mem_infosL.1 hy
+    exact ⟨n, hn, hyd, hydid⟩
+
+/-- T6: the loop never changes shape or payload (every forest, every order). -/
+theorem reclassify_shape (order : List NodeId) (f : List T) :
+    plainShape (reclassify order f) = plainShape f :=
+  plainShape_reclassify order f
+
+/-- T6 (partial — the statement "ADDED→MOVED_HERE and REMOVED→MOVED_TO are the only transitions"
+is FALSE): position by position the final result has the records of the raw result (identity,
+payload, kind, `dc_renumbered` unchanged — `SameBut`), and the `dc` mark is unchanged, or the
+node belongs to `added_nodes`, was marked ADDED *or was an unmarked copy below an ADDED node*, and
+is now MOVED_HERE, or it was REMOVED and is now MOVED_TO.
+
+Counterexample to the stronger claim (checked with `#eval`): `t0 = [b]`, `t1 = [a[x[b]]]`.  The raw
+result is `b:REMOVED, a:ADDED[x:ADDED[b:–]]` (`_copy_children` marks only the first level and puts
+*all* copies into `added_nodes`); the loop turns the unmarked copy of `b` into MOVED_HERE (and
+`b` into MOVED_TO), so an unmarked node changes its mark. -/
+theorem moved_transitions_partial (ordered : Bool) (t0 t1 : List T) (o : Option (List NodeId))
+    (hv : ValidOrder ordered t0 t1 o) :
+    SimL (fun i j => SameBut i j ∧
+        (dcI j = dcI i ∨
+         ((dcI i = some "ADDED" ∨ dcI i = none) ∧ i.id ∈ addedIds (rawDiff ordered t0 t1) ∧
+            dcI j = some "MOVED_HERE") ∨
+         (dcI i = some "REMOVED" ∧ dcI j = some "MOVED_TO")))
+      (rawDiff ordered t0 t1) (diffTree ordered false t0 t1 o) := by
+  refine simL_mono ?_ _ _ (diffTree_simL hv)
+  rintro i j ⟨hi, hs, ht⟩
+  refine ⟨hs, ?_⟩
+  rcases ht with ht | ⟨ha, ht⟩ | ht
+  · exact Or.inl ht
+  · exact Or.inr (Or.inl ⟨rawDiff_added_marks _ _ _ i hi ha, ha, ht⟩)
+  · exact Or.inr (Or.inr ht)
+
+/-- T6, positional form: only nodes marked ADDED and nodes below them can become MOVED_HERE
+(`ReclL false`: the flag becomes `true` below a node marked ADDED). -/
+theorem moved_positional (ordered : Bool) (t0 t1 : List T) (o : Option (List NodeId))
+    (hv : ValidOrder ordered t0 t1 o) :
+    ReclL false (rawDiff ordered t0 t1) (diffTree ordered false t0 t1 o) :=
+  diffTree_reclL hv
+
+/-! ## T1 — identical trees -/
+
+/-- T1: comparing a tree with an identical copy yields no change marks and the same shape
+(every iteration order, no validity hypothesis needed). -/
+theorem diff_identical (ordered : Bool) {t : List T} (hS : SibU t) (hF : IdFaithful t t)
+    (o : Option (List NodeId)) :
+    (∀ n ∈ flatL (diffTree ordered false t t o), dcOf n = none) ∧
+      plainShape (diffTree ordered false t t o) = plainShape t := by
+  rw [ident_diffTree ⟨hS, hF⟩]
+  obtain ⟨h1, h2⟩ := ident_raw ⟨hS, hF⟩ ordered
+  exact ⟨fun n hn => (h1 n hn).1, h2⟩
+
+/-- T1, addendum: no `dc_renumbered` either, and the reduced diff is empty. -/
+theorem diff_identical_reduced (ordered : Bool) {t : List T} (hS : SibU t) (hF : IdFaithful t t)
+    (o : Option (List NodeId)) :
+    (∀ n ∈ flatL (diffTree ordered false t t o), hasRen n = false) ∧
+      diffTree ordered true t t o = [] := by
+  have h1 := (ident_raw ⟨hS, hF⟩ ordered).1
+  rw [reduce_diffTree, ident_diffTree ⟨hS, hF⟩]
+  refine ⟨fun n hn => (h1 n hn).2, ?_⟩
+  have hany : (flatL (rawDiff ordered t t)).any (fun x => (dcOf x).isSome) = false := by
+    rw [List.any_eq_false]
+    intro x hx
+    rw [(h1 x hx).1]; simp
+  have := infosL_reduceL (rawDiff ordered t t)
+  rw [filter_hasMarkedDesc_eq_nil hany] at this
+  cases hr : reduceL (rawDiff ordered t t) with
+  | nil => rfl
+  | cons a as =>
+    rw [hr] at this
+    cases a
+    simp [infosL_cons, infos_node] at this
+
+/-! ## T2 — projection onto the first tree -/
+
+/-- T2: dropping the ADDED / MOVED_HERE nodes from the result gives, below every node that is not
+marked REMOVED / MOVED_TO, exactly `t0`'s child list in `t0`'s order (`FirstProj`).
+`SibU` / `IdFaithful` are not needed.
+
+`ValidOrder` is needed: for `t0 = [a[b], b]`, `t1 = [a, b]` the raw result is
+`a:–[b:REMOVED], b:–`; with `order? = some [3]` (the identity of the matched top-level `b`, which
+is not in `added_nodes`) the model marks that matched node MOVED_HERE, so it would be dropped
+from the projection although it is a child of `t0`. -/
+theorem proj_first (ordered : Bool) (t0 t1 : List T) (o : Option (List NodeId))
+    (hv : ValidOrder ordered t0 t1 o) : FirstProj (diffTree ordered false t0 t1 o) t0 :=
+  firstProj_of_spec ordered _ _ _ (spec_diffTree hv)
+
+/-! ## T3 — projection onto the second tree -/
+
+/-- T3: dropping the REMOVED / MOVED_TO nodes (with their subtrees) from the result gives `t1`'s
+parent→child relation: the same payload shape up to the order of the children at every level
+(`PEquiv`; matched elements have `==` data — the result carries `t0`'s data object — and the same
+data_id). -/
+theorem proj_second (ordered : Bool) {t0 t1 : List T} (h0 : SibU t0) (h1 : SibU t1)
+    (hF : IdFaithful t0 t1) (o : Option (List NodeId)) (hv : ValidOrder ordered t0 t1 o) :
+    PEquiv (plainShape (dropMarked ["REMOVED", "MOVED_TO"] (diffTree ordered false t0 t1 o)))
+      (plainShape t1) :=
+  secondProj_of_spec ordered _ _ _ h0 h1 hF (spec_diffTree hv)
+
+/-! ## T4 — the marks are exact -/
+
+/-- T4: at every level reached by the matched-pairs traversal (`k0`, `k1` the children of the
+matched `p0`, `p1`; `r` the children of the result node):
+* `r` consists of one child per child of `p0` (same position, same payload) followed by one child
+  per child of `p1` whose data_id does not occur among `p0`'s children (`addedSrc`, in `p1` order);
+* the child for `c0` is marked REMOVED / MOVED_TO iff `c0` has no `==` peer among `p1`'s children
+  (then it is a leaf), it is never marked ADDED / MOVED_HERE, and if `c0` has a peer at index `i1`
+  its mark is `orderMark ordered j i1` (no mark, or the order mark);
+* the children for `addedSrc` are marked ADDED / MOVED_HERE (not REMOVED / MOVED_TO), and below
+  them are plain copies (`CopyQ`: payload equal, unmarked or ADDED / MOVED_HERE);
+* so a child is marked ADDED / MOVED_HERE iff its position is `≥ k0.length`. -/
+theorem marks_exact (ordered : Bool) (t0 t1 : List T) (o : Option (List NodeId))
+    (hv : ValidOrder ordered t0 t1 o) {k0 k1 r : List T}
+    (hm : Matched t0 t1 (diffTree ordered false t0 t1 o) k0 k1 r) :
+    r.length = k0.length + (addedSrc k0 k1).length ∧
+    (∀ (j : Nat) (c0 : T), k0[j]? = some c0 → ∃ c2, r[j]? = some c2 ∧
+        c2.data = c0.data ∧ c2.did = c0.did ∧
+        (isRemoved c2 = true ↔ findChild k1 c0 = none) ∧ isAdded c2 = false ∧
+        (findChild k1 c0 = none → c2.kids = []) ∧
+        (∀ i1 c1, findChild k1 c0 = some (i1, c1) → dcOf c2 = orderMark ordered j i1)) ∧
+    (∀ (j : Nat) (c1 : T), (addedSrc k0 k1)[j]? = some c1 → ∃ c2, r[k0.length + j]? = some c2 ∧
+        c2.data = c1.data ∧ c2.did = c1.did ∧ isAdded c2 = true ∧ isRemoved c2 = false ∧
+        SimL CopyQ c1.kids c2.kids) ∧
+    (∀ (j : Nat) (c2 : T), r[j]? = some c2 → (isAdded c2 = true ↔ k0.length ≤ j)) := by
+  have hl : Local ordered k0 k1 r := spec_diffTree hv _ _ _ hm
+  have hsrc : ∀ (j : Nat) (c0 : T), k0[j]? = some c0 → ∃ c2, r[j]? = some c2 ∧
+        c2.data = c0.data ∧ c2.did = c0.did ∧
+        (isRemoved c2 = true ↔ findChild k1 c0 = none) ∧ isAdded c2 = false ∧
+        (findChild k1 c0 = none → c2.kids = []) ∧
+        (∀ i1 c1, findChild k1 c0 = some (i1, c1) → dcOf c2 = orderMark ordered j i1) := by
+    intro j c0 h0
+    obtain ⟨c2, h2, hd, hi, hmk⟩ := hl.src j c0 h0
+    exact ⟨c2, h2, hd, hi, srcMark_removed_iff hmk, srcMark_not_added hmk,
+      fun hf => (srcMark_none hmk hf).2.1, fun i1 c1 hf => (srcMark_found hmk hf).1⟩
+  have hadd : ∀ (j : Nat) (c1 : T), (addedSrc k0 k1)[j]? = some c1 → ∃ c2, r[k0.length + j]? = some c2 ∧
+        c2.data = c1.data ∧ c2.did = c1.did ∧ isAdded c2 = true ∧ isRemoved c2 = false ∧
+        SimL CopyQ c1.kids c2.kids := by
+    intro j c1 h1
+    obtain ⟨c2, h2, hd, hi, ha, _, hs⟩ := hl.add j c1 h1
+    refine ⟨c2, h2, hd, hi, ha, ?_, hs⟩
+    unfold isAdded isAddedS at ha
+    unfold isRemoved isRemovedS
+    simp only [Bool.or_eq_true, beq_iff_eq] at ha
+    rcases ha with ha | ha <;> rw [ha] <;> decide
+  refine ⟨hl.len, hsrc, hadd, ?_⟩
+  intro j c2 h2
+  have hjr := (List.getElem?_eq_some_iff.1 h2).1
+  by_cases hj : j < k0.length
+  · obtain ⟨c2', h2', _, _, _, hna, _⟩ := hsrc j k0[j] (List.getElem?_eq_getElem hj)
+    rw [h2] at h2'; injection h2' with h2'; subst h2'
+    rw [hna]
+    constructor
+    · intro h; cases h
+    · intro h; omega
+  · have hlen := hl.len
+    have hja : j - k0.length < (addedSrc k0 k1).length := by omega
+    obtain ⟨c2', h2', _, _, ha, _⟩ := hadd (j - k0.length) _ (List.getElem?_eq_getElem hja)
+    have : k0.length + (j - k0.length) = j := by omega
+    rw [this, h2] at h2'; injection h2' with h2'; subst h2'
+    exact ⟨fun _ => by omega, fun _ => ha⟩
+
+/-! ## T5 — order marks and `dc_renumbered` -/
+
+/-- T5 (matched children): at every matched level the result child for the `p0` child at index
+`j` whose peer sits at index `i1` among `p1`'s children carries `dc = "(j, i1)"` iff
+`ordered = true` and `j ≠ i1` (`orderMark`), and no mark otherwise; and it carries
+`dc_renumbered` iff `ordered = true` and one of its own matched children is renumbered (some child
+of `c0` has its peer at a different index among the children of `c1`). -/
+theorem order_marks (ordered : Bool) (t0 t1 : List T) (o : Option (List NodeId))
+    (hv : ValidOrder ordered t0 t1 o) {k0 k1 r : List T}
+    (hm : Matched t0 t1 (diffTree ordered false t0 t1 o) k0 k1 r)
+    {j i1 : Nat} {c0 c1 c2 : T} (h0 : k0[j]? = some c0) (hf : findChild k1 c0 = some (i1, c1))
+    (h2 : r[j]? = some c2) :
+    dcOf c2 = (if ordered && j != i1 then some (DC.order j i1).str else none) ∧
+    (hasRen c2 = true ↔ ordered = true ∧
+      ∃ j' d0 i' d1, c0.kids[j']? = some d0 ∧ findChild c1.kids d0 = some (i', d1) ∧ j' ≠ i') := by
+  have hl : Local ordered k0 k1 r := spec_diffTree hv _ _ _ hm
+  obtain ⟨c2', h2', _, _, hmk⟩ := hl.src j c0 h0
+  rw [h2] at h2'; injection h2' with h2'; subst h2'
+  exact srcMark_found hmk hf
+
+/-- T5 (children without a peer, added children): no `dc_renumbered`. -/
+theorem order_marks_onesided (ordered : Bool) (t0 t1 : List T) (o : Option (List NodeId))
+    (hv : ValidOrder ordered t0 t1 o) {k0 k1 r : List T}
+    (hm : Matched t0 t1 (diffTree ordered false t0 t1 o) k0 k1 r) :
+    (∀ (j : Nat) (c0 c2 : T), k0[j]? = some c0 → findChild k1 c0 = none → r[j]? = some c2 →
+      hasRen c2 = false) ∧
+    (∀ (j : Nat) (c2 : T), k0.length ≤ j → r[j]? = some c2 →
+      hasRen c2 = false ∧ ∀ x ∈ infosL c2.kids, renI x = false) := by
+  have hl : Local ordered k0 k1 r := spec_diffTree hv _ _ _ hm
+  constructor
+  · intro j c0 c2 h0 hf h2
+    obtain ⟨c2', h2', _, _, hmk⟩ := hl.src j c0 h0
+    rw [h2] at h2'; injection h2' with h2'; subst h2'
+    exact (srcMark_none hmk hf).2.2
+  · intro j c2 hj h2
+    have hjr := (List.getElem?_eq_some_iff.1 h2).1
+    have hlen := hl.len
+    have hja : j - k0.length < (addedSrc k0 k1).length := by omega
+    obtain ⟨c2', h2', _, _, _, hren, hsim⟩ := hl.add (j - k0.length) _ (List.getElem?_eq_getElem hja)
+    have : k0.length + (j - k0.length) = j := by omega
+    rw [this, h2] at h2'; injection h2' with h2'; subst h2'
+    refine ⟨hren, fun x hx => ?_⟩
+    obtain ⟨y, _, hq⟩ := simL_right _ _ hsim x hx
+    exact hq.2.2.2
+
+/-- T5 (`ordered = false`): no order mark and no `dc_renumbered` anywhere in the result. -/
+theorem order_marks_unordered (t0 t1 : List T) (o : Option (List NodeId))
+    (hv : ValidOrder false t0 t1 o) :
+    ∀ n ∈ flatL (diffTree false false t0 t1 o),
+      hasRen n = false ∧ ∀ i0 i1, dcOf n ≠ some (DC.order i0 i1).str :=
+  diffTree_unordered hv
+
+/-! ## the default order is valid -/
+
+/-- the creation order (`order? = none`) is a valid iteration order: T2–T6 hold for it without
+any hypothesis on the order. -/
+theorem validOrder_default (ordered : Bool) (t0 t1 : List T) : ValidOrder ordered t0 t1 none :=
+  validOrder_none ordered t0 t1
+
+/-- every list of members of `added_nodes` (in particular every permutation of it) is valid. -/
+theorem validOrder_of_subset (ordered : Bool) (t0 t1 : List T) (l : List NodeId)
+    (h : ∀ n ∈ l, n ∈ addedIds (rawDiff ordered t0 t1)) : ValidOrder ordered t0 t1 (some l) := by
+  intro l' hl'; injection hl' with hl'; subst hl'; exact h
+
+/-! ## non-vacuity: a concrete diff with a moved clone -/
+
+section Example
+
+private def lbl (k : Nat) (s : String) : Atom :=
+  { obj := k, eqc := k, hid := .int k, truthy := true, isStr := true, name := s }
+private def nd (id k : Nat) (s : String) (ks : List T) : T :=
+  .node { id := id, data := lbl k s, did := .int k } ks
+
+/-- `A[x, y], B` -/
+private def ex0 : List T := [nd 1 1 "A" [nd 2 3 "x" [], nd 3 4 "y" []], nd 4 2 "B" []]
+/-- `A[y], B[x], C`: `x` moved from `A` to `B`, `y` renumbered, `C` new. -/
+private def ex1 : List T := [nd 1 1 "A" [nd 2 4 "y" []], nd 3 2 "B" [nd 4 3 "x" []], nd 5 5 "C" []]
+
+private def marks (f : List T) : List (String × Option String × Bool) :=
+  (flatL f).map fun n => (n.name, dcOf n, hasRen n)
+
+/-- the result of `diff(ordered=True)` on the two forests: names, `dc` marks, `dc_renumbered`. -/
+example : marks (diffTree true false ex0 ex1 none) =
+    [("A", none, true), ("x", some "MOVED_TO", false), ("y", some "(1, 0)", false),
+     ("B", none, false), ("x", some "MOVED_HERE", false), ("C", some "ADDED", false)] := by
+  have f1 : findChild ex1 (nd 1 1 "A" [nd 2 3 "x" [], nd 3 4 "y" []]) =
+      some (0, nd 1 1 "A" [nd 2 4 "y" []]) := by decide
+  have f2 : findChild ex1 (nd 4 2 "B" []) = some (1, nd 3 2 "B" [nd 4 3 "x" []]) := by decide
+  have f3 : findChild [nd 2 4 "y" []] (nd 2 3 "x" []) = none := by decide
+  have f4 : findChild [nd 2 4 "y" []] (nd 3 4 "y" []) = some (0, nd 2 4 "y" []) := by decide
+  have a1 : addedSrc ([] : List T) [] = [] := by decide
+  have a2 : addedSrc [nd 2 3 "x" [], nd 3 4 "y" []] [nd 2 4 "y" []] = [] := by decide
+  have a3 : addedSrc [] [nd 4 3 "x" []] = [nd 4 3 "x" []] := by decide
+  have a4 : addedSrc ex0 ex1 = [nd 5 5 "C" []] := by decide
+  rw [diffTree_false]
+  unfold rawDiff
+  simp only [ex0, nd] at f1 f2 f3 f4 a1 a2 a3 a4 ⊢
+  simp only [cmpNode_eq, cmpL_cons, cmpL_nil, f1, f2, f3, f4, subFor, kids_node, a1, a2, a3, a4,
+    addL_cons, addL_nil, copyKidsL_nil]
+  decide
+
+private theorem sibU_of_decide (f : List T)
+    (h : (decide ((f.map T.did).Nodup) &&
+      (flatL f).all (fun x => decide ((x.kids.map T.did).Nodup))) = true) : SibU f := by
+  rw [Bool.and_eq_true, List.all_eq_true] at h
+  exact ⟨of_decide_eq_true h.1, fun x hx => of_decide_eq_true (h.2 x hx)⟩
+
+/-- the hypotheses of T1–T3 are satisfiable by these inputs. -/
+example : SibU ex0 ∧ SibU ex1 ∧ IdFaithful ex0 ex1 := by
+  refine ⟨sibU_of_decide _ (by decide), sibU_of_decide _ (by decide), ?_⟩
+  have h : (flatL ex0).all (fun a => (flatL ex1).all fun b =>
+      decide (a.data.pyEq b.data = true ↔ a.did = b.did)) = true := by decide
+  intro a ha b hb
+  rw [List.all_eq_true] at h
+  have := h a ha
+  rw [List.all_eq_true] at this
+  exact of_decide_eq_true (this b hb)
+
+end Example
 
 end Nutree.C11
